@@ -41,6 +41,12 @@ class Facts:
                     elif k == "crate":
                         self.crates.append(r)
         self._cg = None
+        self.removed_helpers = {}   # helpers inlined into all their callers by normalise(): not bodies of their own any more
+
+    def hir_bodies(self):
+        """Every function body with its source-level (HIR) tree, including helpers whose MIR was inlined into their callers:
+        rules that match source-level constructs wherever they occur use this list."""
+        return list(self.bodies.values()) + list(self.removed_helpers.values())
 
     # ---------- lookup helpers ----------
     def body(self, path):
@@ -227,7 +233,16 @@ class Body:
         return a in self.dominators().get(b, set())
 
     def reach_from(self, start, avoid=(), succ_filter=None):
-        """Blocks reachable from `start` (list or int) via normal edges, not entering `avoid`."""
+        """Blocks reachable from `start` (list or int) via normal edges, not entering `avoid`.
+
+        In a body with inlined helpers the search is path-sensitive for constants and enum variants built on the path taken
+        (`return Err(Kind::A)` in a helper, `match` on it in the caller), see reach_feasible."""
+        if succ_filter is None and getattr(self, "inlined_from", None):
+            starts = [start] if isinstance(start, int) else list(start)
+            out = set()
+            for s_ in starts:
+                out |= self.reach_feasible(s_, avoid)
+            return out
         succ = self.succ_map()
         avoid = set(avoid)
         starts = [start] if isinstance(start, int) else list(start)
@@ -247,6 +262,118 @@ class Body:
                 seen.add(s)
                 st.append(s)
         return seen
+
+    def _untracked_locals(self):
+        """Locals whose value can change behind the back of a per-path environment (address taken mutably / raw)."""
+        if getattr(self, "_untracked", None) is None:
+            u = set()
+            for blk in self.blocks:
+                for st in blk["stmts"]:
+                    if st["k"] == "assign":
+                        rv = st["rv"]
+                        if rv["k"] == "rawptr" or (rv["k"] == "ref" and rv.get("bk") == "mut"):
+                            u.add(rv["pl"]["l"])
+            self._untracked = u
+        return self._untracked
+
+    def reach_feasible(self, start, avoid=(), known=None):
+        """Reachability that follows only the feasible edge of a switch whose discriminant is known *on the path taken*:
+        booleans (`x = const`, `y = move x`, `z = !x`) and enum values built by aggregates (`r = Err(Kind::A)`; `match r`),
+        including nested payloads. Everything else is explored on all edges; on state explosion the plain (larger) set is returned."""
+        succ = self.succ_map()
+        avoid = set(avoid)
+        untracked = self._untracked_locals()
+        seen = set()
+        out = set()
+        stack = [(start, tuple(sorted((known or {}).items())))]
+        steps = 0
+
+        def ev_place(env, pl):
+            v = env.get(pl["l"])
+            for e in pl["p"]:
+                if v is None or isinstance(v, bool):
+                    return None
+                if isinstance(e, dict) and "d" in e:
+                    if v[0] == "V" and v[1] == e["d"]:
+                        continue
+                    return None
+                if isinstance(e, dict) and "f" in e and v[0] == "V":
+                    v = v[2][e["f"]] if e["f"] < len(v[2]) else None
+                    continue
+                return None
+            return v
+
+        def ev_op(env, o):
+            if o["k"] == "const":
+                c = o["const"].get("v")
+                if c in ("true", "false"):
+                    return c == "true"
+                return None
+            if o["k"] in ("copy", "move"):
+                return ev_place(env, o["pl"])
+            return None
+        while stack:
+            steps += 1
+            if steps > 40000:
+                return self.reach_from(start, avoid, succ_filter=lambda a, b: True)
+            x, envt = stack.pop()
+            if x in avoid or (x, envt) in seen:
+                continue
+            seen.add((x, envt))
+            out.add(x)
+            env = dict(envt)
+            for st in self.blocks[x]["stmts"]:
+                if st["k"] == "setdiscr":
+                    env.pop(st["pl"]["l"], None)
+                    continue
+                if st["k"] != "assign":
+                    continue
+                l = st["pl"]["l"]
+                if st["pl"]["p"] or l in untracked:
+                    env.pop(l, None)
+                    continue
+                rv = st["rv"]
+                val = None
+                if rv["k"] == "use":
+                    val = ev_op(env, rv["op"])
+                elif rv["k"] == "un" and rv["op"] == "Not":
+                    a = ev_op(env, rv["a"])
+                    val = (not a) if isinstance(a, bool) else None
+                elif rv["k"] == "agg" and rv.get("ak") == "adt" and rv.get("variant") is not None:
+                    val = ("V", rv["variant"], tuple(ev_op(env, o) for o in rv["ops"]))
+                elif rv["k"] == "agg" and rv.get("ak") == "tuple":
+                    val = ("V", None, tuple(ev_op(env, o) for o in rv["ops"]))
+                elif rv["k"] == "discr":
+                    v = ev_place(env, rv["pl"])
+                    if v is not None and not isinstance(v, bool) and v[0] == "V" and v[1] is not None:
+                        val = ("D", v[1])
+                if val is None:
+                    env.pop(l, None)
+                else:
+                    env[l] = val
+            t = self.blocks[x]["term"]
+            if t["k"] == "call":
+                env.pop(t["dest"]["l"], None)
+            nxt = succ[x]
+            if t["k"] == "switch" and t["discr"]["k"] in ("copy", "move") and not t["discr"]["pl"]["p"]:
+                v = env.get(t["discr"]["pl"]["l"])
+                if isinstance(v, bool) and t.get("discr_ty") == "bool":
+                    tgt = None
+                    for a in t["arms"]:
+                        if (a["val"] != 0) == v:
+                            tgt = a["target"]
+                    nxt = [tgt if tgt is not None else t["otherwise"]]
+                elif v is not None and not isinstance(v, bool) and v[0] == "D" and all(a.get("name") for a in t["arms"]):
+                    tgt = None
+                    for a in t["arms"]:
+                        if a["name"] == v[1]:
+                            tgt = a["target"]
+                    nxt = [tgt if tgt is not None else t["otherwise"]]
+            # forget what is not needed to keep the state space small: values are only read through locals
+            et = tuple(sorted(env.items(), key=lambda kv: kv[0]))
+            for y in nxt:
+                stack.append((y, et))
+        return out
 
     def reach_strict(self, start, avoid=()):
         """Blocks reachable by at least one edge from start."""
@@ -355,6 +482,9 @@ class Body:
             c = operand["const"]
             if "fn" in c:
                 return ("fnref", c["fn"]["path"], c["fn"])
+            if c.get("tuple_fields"):
+                # a named tuple constant is the tuple of its (evaluated) fields
+                return ("agg", "tuple", [("const", "%s.%d" % (c["c"], i), f.get("v")) for i, f in enumerate(c["tuple_fields"])])
             return ("const", c["c"], c.get("v"))
         if k in ("copy", "move"):
             return self.place_value(operand["pl"], depth, seen)
@@ -415,6 +545,9 @@ class Body:
         if l in seen or depth > 40:
             return ("local", l, self.local_name(l))
         ds = self.defs().get(l, [])
+        # a store through the pointer parameter of an inlined helper (`(*self).f = ..`) does not redefine the pointer
+        if self.locals[l].get("inl_param"):
+            ds = [d for d in ds if not (d[3]["pl" if d[0] == "stmt" else "dest"]["p"][:1] == ["*"])]
         # whole-local definitions only
         whole = [d for d in ds if not d[3]["pl" if d[0] == "stmt" else "dest"]["p"]]
         if len(ds) != 1 or len(whole) != 1:
@@ -822,6 +955,15 @@ def _slice(self, start_operands, control=True, start_bb=None, mut_flows=False):
         first = pl["p"][0] if pl["p"] else None
         if isinstance(first, dict) and "f" in first and not self.is_arg(l):
             ds = defs.get(l, [])
+            # look through whole-value moves (`_a = move _b`), e.g. the return place of an inlined helper
+            for _ in range(6):
+                if len(ds) == 1 and ds[0][0] == "stmt" and ds[0][3]["k"] == "assign" and not ds[0][3]["pl"]["p"] and \
+                        ds[0][3]["rv"]["k"] == "use" and ds[0][3]["rv"]["op"]["k"] in ("copy", "move") and \
+                        not ds[0][3]["rv"]["op"]["pl"]["p"] and not self.is_arg(ds[0][3]["rv"]["op"]["pl"]["l"]):
+                    add_bb_control(ds[0][1])
+                    ds = defs.get(ds[0][3]["rv"]["op"]["pl"]["l"], [])
+                else:
+                    break
             if ds and all(d[0] == "stmt" and d[3]["k"] == "assign" and not d[3]["pl"]["p"] and d[3]["rv"]["k"] == "agg"
                           and len(d[3]["rv"]["ops"]) > first["f"] for d in ds):
                 for d in ds:
